@@ -1354,3 +1354,9 @@ func (w *MyWorld) ProcCut(proc, target string) bool { return w.procCut(proc, tar
 
 // HasExecuted reports whether the host has executed uuid:gno.
 func (h *MyHost) HasExecuted(uuid string, gno int64) bool { return gsHas(h.Executed, uuid, gno) }
+
+// Poison makes the SQL thread of the host fail with errno when it reaches transaction uuid:gno.
+func (h *MyHost) Poison(uuid string, gno int64, errno int) { h.PoisonSQL[txnKey{uuid, gno}] = errno }
+
+// Cure removes a poison.
+func (h *MyHost) Cure(uuid string, gno int64) { delete(h.PoisonSQL, txnKey{uuid, gno}) }
